@@ -443,3 +443,69 @@ def printed_text(ctx: Ctx, f: Func) -> str | None:
     if _av.has_unk(v) or not _av._is_str(v):
         return None
     return _av.flatten(v).replace(_av.HO, "{").replace(_av.HC, "}")
+
+
+def module_constants(ctx: Ctx, rel: str) -> dict:
+    """module-level names bound exactly once to a literal (str / int / float / bool / None)"""
+    mod = ctx.sm.modules.get(rel)
+    out, seen = {}, {}
+    if mod is None:
+        return out
+    for st in mod.body:
+        tg = st.targets if isinstance(st, ast.Assign) else ([st.target] if isinstance(st, ast.AnnAssign) and st.value is not None else [])
+        for t in tg:
+            if isinstance(t, ast.Name):
+                seen[t.id] = seen.get(t.id, 0) + 1
+                if isinstance(st.value, ast.Constant):
+                    out[t.id] = st.value.value
+    return {k: v for k, v in out.items() if seen.get(k) == 1}
+
+
+def norm_with_constants(ctx: Ctx, f: Func, node) -> str:
+    """normalised text of `node` with module-level named constants replaced by their literal"""
+    import copy
+
+    from sa.sm import norm as _norm
+
+    consts = module_constants(ctx, f.rel)
+    bound = set(f.params) | {t.id for n in ast.walk(f.node) for t in ast.walk(n) if isinstance(t, ast.Name) and isinstance(t.ctx, ast.Store)}
+
+    class R(ast.NodeTransformer):
+        def visit_Name(self, n):
+            if isinstance(n.ctx, ast.Load) and n.id in consts and n.id not in bound:
+                return ast.copy_location(ast.Constant(consts[n.id]), n)
+            return n
+
+    return _norm(ast.fix_missing_locations(R().visit(copy.deepcopy(node))))
+
+
+def case_split(v, limit: int = 3):
+    """[(conditions, value)]: `v` specialised for every truth assignment of the (at most `limit`) distinct conditions
+    of the conditional terms inside it - wherever they stand (an operand, an argument, a subscripted pair).  None when
+    there are more conditions than `limit`."""
+    import itertools
+
+    from sa import av as _a
+
+    conds = []
+    for t in _a.find_all(v, "if"):
+        if t[1] not in conds:
+            conds.append(t[1])
+    if len(conds) > limit:
+        return None
+
+    def spec(t, assign):
+        if not isinstance(t, tuple) or not t:
+            return t
+        if isinstance(t[0], str) and t[0] == "if" and len(t) == 4 and t[1] in assign:
+            return spec(t[2] if assign[t[1]] else t[3], assign)
+        return tuple(spec(x, assign) if isinstance(x, tuple) else x for x in t)
+
+    out = []
+    for bits in itertools.product((True, False), repeat=len(conds)):
+        assign = dict(zip(conds, bits))
+        val = spec(v, assign)
+        if _a.find_all(val, "if"):
+            return None
+        out.append((tuple(c if b else _a.mk_not(c) for c, b in assign.items()), _a.renorm_deep(val)))
+    return out
